@@ -131,9 +131,9 @@ def _b_val(m, e):
     raise symx.HarnessError(f"cannot evaluate bool {e}")
 
 def _s_val(m, c):
-    if type(c).__name__ in ("StrfToken", "ReToken", "StrFnToken"): return UF_WILDCARD
+    if type(c).__name__ in ("StrfToken", "ReToken", "StrFnToken", "IsoToken"): return UF_WILDCARD
     if isinstance(c, SymStr): c = c.c
-    if isinstance(c, str): return c
+    if isinstance(c, str): return UF_WILDCARD if c.startswith("\ue100iso") else c
     if m is None:
         class _M:
             @staticmethod
@@ -172,7 +172,8 @@ def encode(t, m=None):
         if unit in ("s", "ms") or (key == "m" and unit in ("D", "h", "m")):
             v *= symx._UNIT_FACTOR[unit]; unit = "us"
         return {key: v, "u": unit}
-    if isinstance(t, (SymStr, StrCell)) or type(t).__name__ in ("StrfToken", "ReToken", "StrFnToken"): return _s_val(m, t)
+    if isinstance(t, (SymStr, StrCell)) or type(t).__name__ in ("StrfToken", "ReToken", "StrFnToken", "IsoToken"): return _s_val(m, t)
+    if isinstance(t, str) and t.startswith("\ue100iso"): return UF_WILDCARD
     if isinstance(t, (bool, str)): return t
     if isinstance(t, int): return t
     if isinstance(t, float):
